@@ -27,6 +27,7 @@ type c05Case struct {
 	// Replay: a recorded operator sequence (labels) to re-execute instead of searching
 	Trace []string `json:"trace,omitempty"`
 	CLI   bool     `json:"cli,omitempty"` // whitespace forms of the document read from a file by the command line tool
+	Big   int      `json:"big,omitempty"` // n items each with an anonymous (blank) owner node, in five document forms
 }
 
 type c05State struct {
@@ -659,8 +660,8 @@ func c05NQuads(text string) (string, error) {
 func init() {
 	Register(Meta{
 		ID: "C05", Level: "model_checking", LongCases: true,
-		Rule:        "state = JSON-LD document text; initial states = canonical flattened serialisation of base graphs (mixed scalars/links/types, path collision graph, lexical document with source maps, truth table with decoys, a two-node tree that embeds into a single top-level node); transitions = 16 surface rewrites, every applicable (operator, position): prefix context, the context moved to a file and referenced by path, @vocab context, @base-relative ids, embed a referenced node at one reference, hoist an embedded node, @graph wrapper/top-level array/single node forms, \"@graph\": [node] <-> \"@graph\": node, rotate/reverse node order, reverse key order, value<->one-element array per property, @type string<->array, duplicate a value, duplicate/split a node object, fully expanded form, indentation. Whitespace forms that only matter where the text is first read (one line of 70 000 bytes / 1.1 MiB, CRLF, tabs, leading/trailing blank runs) go through the built command line tool for 3 graphs. Depth-bounded search deduplicated on the document text; every transition is first validated to preserve the RDF dataset (sorted N-Quads by json-gold); every state is evaluated with a 7-validation observer profile (count, set, nested, inverse path, message placeholders, path expression, @type) and its (conforms, {(severity, validation, focus node, message)}) must equal the initial state's.",
-		Assumptions: []string{"typed/language-tagged literals and contexts fetched over the network are outside the rewrite alphabet (a context referenced as a local file is in it)", "blank nodes do not occur in the base graphs"},
+		Rule:        "state = JSON-LD document text; initial states = canonical flattened serialisation of base graphs (mixed scalars/links/types, path collision graph, lexical document with source maps, truth table with decoys, a two-node tree that embeds into a single top-level node); transitions = 16 surface rewrites, every applicable (operator, position): prefix context, the context moved to a file and referenced by path, @vocab context, @base-relative ids, embed a referenced node at one reference, hoist an embedded node, @graph wrapper/top-level array/single node forms, \"@graph\": [node] <-> \"@graph\": node, rotate/reverse node order, reverse key order, value<->one-element array per property, @type string<->array, duplicate a value, duplicate/split a node object, fully expanded form, indentation. Whitespace forms that only matter where the text is first read (one line of 70 000 bytes / 1.1 MiB, CRLF, tabs, leading/trailing blank runs) go through the built command line tool for 3 graphs. Documents of 3/257/600/1025 (4097) items, each with an anonymous owner node, in six forms (array, @graph wrapper, with context, reversed, owners hoisted to labelled blank nodes after/before the items). Depth-bounded search deduplicated on the document text; every transition is first validated to preserve the RDF dataset (sorted N-Quads by json-gold); every state is evaluated with a 7-validation observer profile (count, set, nested, inverse path, message placeholders, path expression, @type) and its (conforms, {(severity, validation, focus node, message)}) must equal the initial state's.",
+		Assumptions: []string{"typed/language-tagged literals and contexts fetched over the network are outside the rewrite alphabet (a context referenced as a local file is in it)", "blank nodes do not occur in the base graphs of the rewrite search (they occur in the large-document forms)"},
 	}, c05Gen, c05Run)
 }
 
@@ -675,6 +676,12 @@ func c05Gen(tier string, emit func(c05Case)) {
 	}
 	for _, g := range []string{"mixed", "lexical", "tree"} {
 		emit(c05Case{Graph: g, CLI: true})
+	}
+	for _, n := range []int{3, 257, 600, 1025} {
+		emit(c05Case{Graph: "big", Big: n})
+	}
+	if tier == "thorough" {
+		emit(c05Case{Graph: "big", Big: 4097})
 	}
 	for _, p := range plan {
 		parts := 16
@@ -774,7 +781,90 @@ func c05RunCLI(c *Ctx, cs c05Case, init c05State) {
 	c.Nontrivial("cli/" + cs.Graph)
 }
 
+// c05RunBig: n items, each linked to an ANONYMOUS owner node (a blank node: its identity exists only inside the
+// document); item n/2's owner lacks the name. Five forms of the same graph: top-level array, @graph wrapper, wrapper
+// with a prefix context, reversed node order, owners hoisted to labelled blank nodes listed after (and before) the
+// items. The verdict (about the items, which have IRIs) must be the same for all.
+func c05RunBig(c *Ctx, cs c05Case) {
+	n := cs.Big
+	prof := EmitYAML(M("profile", "c05 big", "prefixes", M("ex", EX), "violation", strs("owner", "count"),
+		"validations", M(
+			"owner", M("message", "owner needs a name", "targetClass", "ex.T", "propertyConstraints", M("ex.c", M("nested", M("propertyConstraints", M("ex.p4", M("minCount", 1)))))),
+			"count", M("message", "exactly one owner", "targetClass", "ex.T", "propertyConstraints", M("ex.c", M("minCount", 1, "maxCount", 1))))))
+	q, cr := Compile(prof)
+	if q == nil {
+		panic("harness: C05 big profile does not compile: " + cr.ErrString())
+	}
+	owner := func(k int, ns string) string {
+		if k == n/2 {
+			return `{"@type":["` + ns + `C"]}`
+		}
+		return fmt.Sprintf(`{"@type":["%sC"],"%sp4":"owner %d"}`, ns, ns, k)
+	}
+	item := func(k int, ns string) string {
+		return fmt.Sprintf(`{"@id":"%si%d","@type":["%sT"],"%sp2":"a","%sc":%s}`, ns, k, ns, ns, ns, owner(k, ns))
+	}
+	var items, compact, hoistedItems, hoistedOwners []string
+	for k := 0; k < n; k++ {
+		items = append(items, item(k, EX))
+		compact = append(compact, item(k, "ex:"))
+		hoistedItems = append(hoistedItems, fmt.Sprintf(`{"@id":"%si%d","@type":["%sT"],"%sp2":"a","%sc":{"@id":"_:owner%d"}}`, EX, k, EX, EX, EX, k))
+		o := owner(k, EX)
+		hoistedOwners = append(hoistedOwners, fmt.Sprintf(`{"@id":"_:owner%d",%s`, k, o[1:]))
+	}
+	rev := func(l []string) []string {
+		out := make([]string, len(l))
+		for i, x := range l {
+			out[len(l)-1-i] = x
+		}
+		return out
+	}
+	join := func(l []string) string { return strings.Join(l, ",\n") }
+	forms := []struct{ name, text string }{
+		{"top-level array", "[" + join(items) + "]"},
+		{"@graph wrapper", `{"@graph":[` + join(items) + "]}"},
+		{"@graph wrapper with a prefix context", `{"@context":{"ex":"` + EX + `"},"@graph":[` + join(compact) + "]}"},
+		{"@graph wrapper, reversed order", `{"@graph":[` + join(rev(items)) + "]}"},
+		{"labelled blank owners after the items", `{"@graph":[` + join(append(append([]string{}, hoistedItems...), hoistedOwners...)) + "]}"},
+		{"labelled blank owners before the items", `{"@graph":[` + join(append(append([]string{}, hoistedOwners...), hoistedItems...)) + "]}"},
+	}
+	want := ""
+	for i, f := range forms {
+		r := ValidateCompiled(q, f.text)
+		c.Eval(1)
+		if r.Err != nil || r.Panic != nil {
+			c.Violate("C05 equivalent serialisation rejected: "+firstLine(r.ErrString()), fmt.Sprintf("%d items with anonymous owners, form %q", n, f.name), nil)
+			continue
+		}
+		rep, err := ParseReport(r.Report)
+		if err != nil {
+			c.Violate("C05 report malformed", err.Error(), nil)
+			continue
+		}
+		v := rep.Verdict()
+		if i == 0 {
+			want = v
+			if !strings.Contains(v, fmt.Sprintf("|owner|%si%d|", EX, n/2)) {
+				c.Violate("C05 verdict on a document with anonymous nodes is not the expected one", fmt.Sprintf("%d items, form %q: item %d (whose owner has no name) is not reported\n%s", n, f.name, n/2, tailStr(v, 600)), nil)
+			}
+			continue
+		}
+		if v != want {
+			c.Violate("C05 verdict changes under re-serialisation (document with anonymous nodes, form: "+f.name+")", fmt.Sprintf("%d items with anonymous owners\ntop-level array: %s\n%s: %s", n, tailStr(want, 500), f.name, tailStr(v, 500)), nil)
+		}
+		c.Outcome("big form " + f.name)
+	}
+	c.Count("states", int64(len(forms)))
+	c.Count("transitions", int64(len(forms)))
+	c.Count("traces_validated_against_impl", int64(len(forms)))
+	c.Nontrivial(fmt.Sprintf("big/%d", n))
+}
+
 func c05Run(c *Ctx, cs c05Case) {
+	if cs.Big > 0 {
+		c05RunBig(c, cs)
+		return
+	}
 	if c05Query == nil {
 		q, r := Compile(c05Profile())
 		if q == nil {
